@@ -304,6 +304,10 @@ def theorem_of(l):
         return "profile_types_every_scan_bounded (ScansProf.profile_types_query)"
     if ep in TQ_EPS and not sql.startswith("WITH pre_final"):
         return "traceql_every_scan_bounded (TraceqlPlan.plan)"
+    if ep in TQ_EPS:
+        return "traceql_estimate_every_scan_bounded (ScansTq.TE.plan_eval)"
+    if ep in ("tempo_tags_v2", "tempo_values_v2"):
+        return "traceql_all_tags_every_scan_bounded (ScansTq.TE.all_tags)"
     return None
 
 
@@ -352,6 +356,7 @@ def run_scan(ck):
         reqs = [l for l in lines if l["kind"] == "req"]
         if name == "sweep" and res:
             run_traceql_tie(ck, lines, res)
+            run_estimate_tie(ck, lines)
             run_label_tie(ck, lines)
             run_prof_tie(ck, lines)
         if name == "sweep":
@@ -503,6 +508,68 @@ def run_traceql_tie(ck, lines, res):
     ck.obligation("the hypothesis tq_ctx_ok of the TraceQL theorems (UTC date texts, window inside 1970..2100) holds of every compared request context",
                   not notok, "; ".join("%s [%d,%d)" % (cases[i][0]["ep"], cases[i][0]["from_ns"], cases[i][0]["to_ns"]) for i in notok[:4]))
     ck.extra["traceql_model_ties"] = len(cases)
+    ck.coverage["evaluations"] += len(cases)
+
+
+def run_estimate_tie(ck, lines):
+    """text of the model's complexity-estimate statement (TE.plan_eval) and of the tags statement without a query
+    (TE.all_tags) = recorded statement, byte for byte"""
+    cases, seen = [], set()
+    for l in lines:
+        if l["kind"] != "stmt" or l["zone"] not in (0, 10800):
+            continue
+        est = l["ep"] in TQ_EPS and l["sql"].startswith("WITH pre_final")
+        if not est and l["ep"] not in ("tempo_tags_v2", "tempo_values_v2"):
+            continue
+        key = (l["ep"], l["cluster"], l["class"])
+        if key in seen or len([k for k in seen if k[:2] == key[:2]]) >= 3:
+            continue
+        seen.add(key)
+        cases.append((l, est))
+    if not cases:
+        ck.obligation("TraceQL estimate / tags statements of the sweep compared with the model", False, "no statement found")
+        return
+    dates = sorted({utc_day(x) for l, _ in cases for x in (l["from_ns"], l["to_ns"], l["from_ns"] - 1800 * 10**9, l["to_ns"] - 1800 * 10**9)})
+    dn = {d: "d_%d" % i for i, d in enumerate(dates)}
+    hdr = ("From Coq Require Import List ZArith NArith String Ascii Bool.\n"
+           "From Qryn Require Import lib.Strs model.Sql model.Scans model.ScansTq.\n"
+           "From Qryn Require model.TqSql model.Traceql model.TraceqlPlan.\n"
+           "Import ListNotations.\nOpen Scope string_scope.\nOpen Scope Z_scope.\n"
+           + "".join('Definition %s := "%s".\n' % (n, d) for d, n in dn.items()) +
+           "Definition mk (f t : Z) (fd td ffd fft : string) (lim : Z) (cl : bool) (db : string) : TraceqlPlan.ctx :=\n"
+           "  {| TraceqlPlan.from_ns := f; TraceqlPlan.to_ns := t; TraceqlPlan.from_date := fd; TraceqlPlan.to_date := td;\n"
+           "     TraceqlPlan.ffd_from := ffd; TraceqlPlan.ffd_to := fft; TraceqlPlan.limit := lim; TraceqlPlan.is_cluster := cl;\n"
+           "     TraceqlPlan.rf_max := 0; TraceqlPlan.rf_i := 0; TraceqlPlan.cached := [];\n"
+           '     TraceqlPlan.attrs_table := db ++ "tempo_traces_attrs_gin"; TraceqlPlan.attrs_dist_table := db ++ (if cl then "tempo_traces_attrs_gin_dist" else "tempo_traces_attrs_gin");\n'
+           '     TraceqlPlan.traces_table := db ++ "tempo_traces"; TraceqlPlan.traces_dist_table := db ++ (if cl then "tempo_traces_dist" else "tempo_traces");\n'
+           '     TraceqlPlan.kv_dist_table := db ++ (if cl then "tempo_traces_kv_dist" else "tempo_traces_kv") |}.\n')
+    items = []
+    for i, (l, est) in enumerate(cases):
+        f, t = l["from_ns"], l["to_ns"]
+        db = re.search(r"(`[^`]+`\.)tempo_", l["sql"])
+        lim = TQ_EPS[l["ep"]][2] if est else 0
+        ctx = "(mk %d %d %s %s %s %s %d %s %s)" % (f, t, dn[utc_day(f)], dn[utc_day(t)], dn[utc_day(f - 1800 * 10**9)], dn[utc_day(t - 1800 * 10**9)],
+                                                  lim, "true" if l["cluster"] else "false", coq_string(db.group(1) if db else ""))
+        items.append("{| te_id := %d; te_ctx := %s; te_q := %s; te_sql := %s |}" % (
+            i, ctx, ("Some " + TQ_EPS[l["ep"]][0]) if est else "None", coq_string(l["sql"])))
+    txt = (hdr + "Definition cases : list te_case := [\n " + ";\n ".join(items) + "].\n"
+           "Definition M := Eval vm_compute in te_mismatches cases.\nPrint M.\n"
+           "Definition K := Eval vm_compute in te_ctx_not_ok cases.\nPrint K.\n")
+    rc, out = ck.coq_eval("C13_estimate", txt, timeout=600)
+    flat = " ".join((out or "").split())
+    m = re.search(r"M = \[(.*?)\]\s*: list Z", flat)
+    k = re.search(r"K = \[(.*?)\]\s*: list Z", flat)
+    if rc != 0 or not m or not k:
+        ck.obligation("TraceQL estimate model evaluated on the requests of the sweep", False, (out or "")[-1500:])
+        return
+    bad = [int(x) for x in re.findall(r"-?\d+", m.group(1))]
+    notok = [int(x) for x in re.findall(r"-?\d+", k.group(1))]
+    eps = {c[0]["ep"] for c in cases}
+    ck.obligation("correspondence: TqSql.render (TE.plan_eval q ctx) / render (TE.all_tags ctx) = recorded complexity estimate / tags statement, byte for byte, "
+                  "on %d statements (%d endpoints, both layouts)" % (len(cases), len(eps)), not bad and len(eps) >= 8,
+                  "; ".join("%s %s %s: %.400s" % (cases[i][0]["ep"], "cluster" if cases[i][0]["cluster"] else "single", cases[i][0]["class"], cases[i][0]["sql"]) for i in bad[:3]))
+    ck.obligation("tq_ctx_ok holds of every context of the estimate / tags comparison", not notok, str(notok[:5]))
+    ck.extra["traceql_estimate_ties"] = len(cases)
     ck.coverage["evaluations"] += len(cases)
 
 
